@@ -351,8 +351,10 @@ func Tty(t *rapid.T, user bool) kenc.Rec {
 // SERVICE_START, …) with a msg='…' payload.
 func UserRecord(t *rapid.T, typ uint16) kenc.Rec {
 	o := ValOpts{NoSingleQuote: true, SafeOnly: true, MaxLen: 12}
-	if (typ == CRED_DISP || typ == USER_START || typ == USER_END) && rapid.Bool().Draw(t, "oldpam") {
-		// the form pam wrote up to RHEL 6, which the parser unwraps for exactly these three record types
+	if ((typ == CRED_DISP || typ == USER_START || typ == USER_END) && rapid.Bool().Draw(t, "oldpam")) || rapid.IntRange(0, 4).Draw(t, "oldpamother") == 0 {
+		// the form pam wrote up to RHEL 6, which the parser unwraps for exactly these three record types; for the
+		// other types (USER_ACCT, CRED_ACQ, USER_AUTH, USER_LOGIN ...) the text stays as it is, and the last value
+		// — the result — carries the closing parenthesis: success) is a success all the same
 		host, addr := pick(t, "oldhost", "?", "host1"), pick(t, "oldaddr", "?", "10.0.0.1")
 		return kenc.Rec{Type: typ,
 			Fields: []kenc.F{kenc.T("user"), kenc.P("pid", Num(t, "pid", 99999)), kenc.P("uid", ID(t, "uid")), kenc.P("auid", ID(t, "auid")), kenc.P("ses", ID(t, "ses"))},
